@@ -661,8 +661,9 @@ class Performance(object):
         self.performedparts[index] = pp
 
     def __iter__(self) -> Iterator[PerformedPart]:
-        self.iter_idx = 0
-        return self
+        # a fresh iterator per loop, so that nested and interleaved loops
+        # over the same performance do not share a cursor
+        return iter(self.performedparts)
 
     def __next__(self) -> PerformedPart:
         if self.iter_idx == len(self.performedparts):
